@@ -2,6 +2,7 @@
 # - VmDataStore.dll
 from __future__ import annotations
 
+import io
 import struct
 from typing import TYPE_CHECKING, BinaryIO
 
@@ -67,6 +68,10 @@ class HyperVFile:
         self.key_tables: dict[int, list[HyperVStorageKeyTable]] = {}
         self.file_objects: dict[int, HyperVStorageFileObject] = {}
 
+        self.fh.seek(0, io.SEEK_END)
+        file_size = self.fh.tell()
+        key_tables_size = 0
+
         for object_table in self.object_tables:
             for entry in object_table.entries:
                 if entry.allocated == 0:
@@ -82,6 +87,10 @@ class HyperVFile:
                 if entry.type == ObjectEntryType.KeyTable:
                     if any(table.offset == entry.offset for tables in self.key_tables.values() for table in tables):
                         raise ValueError(f"Key table at 0x{entry.offset:x} is referenced more than once")
+                    # Key tables don't overlap, so together they can't be larger than the file
+                    key_tables_size += entry.size
+                    if key_tables_size > file_size:
+                        raise ValueError("Key tables are larger than the file")
                     key_table = HyperVStorageKeyTable(self, entry.offset, entry.size)
                     if key_table.index not in self.key_tables:
                         self.key_tables[key_table.index] = []
